@@ -9,4 +9,4 @@ for id in "$@"; do
 done
 git -C /repo checkout -- .
 # evidence files must describe the unchanged tree: regenerate them (cached, fast)
-for id in "$@"; do bin/check "$id" --tier quick > /dev/null 2>&1; done
+if [ -z "$VERIF_DEV_SKIP_KANI" ]; then for id in "$@"; do bin/check "$id" --tier quick > /dev/null 2>&1; done; fi
